@@ -404,12 +404,15 @@ class Expr:
 
         out_typ = left.typ
 
+        # NOTE: IR arguments are evaluated last-to-first. these ops are
+        # commutative, so list the operands in reverse to evaluate `left`
+        # (and its side effects) before `right`.
         if isinstance(op, vy_ast.BitAnd):
-            return IRnode.from_list(["and", left, right], typ=out_typ)
+            return IRnode.from_list(["and", right, left], typ=out_typ)
         if isinstance(op, vy_ast.BitOr):
-            return IRnode.from_list(["or", left, right], typ=out_typ)
+            return IRnode.from_list(["or", right, left], typ=out_typ)
         if isinstance(op, vy_ast.BitXor):
-            return IRnode.from_list(["xor", left, right], typ=out_typ)
+            return IRnode.from_list(["xor", right, left], typ=out_typ)
 
         if isinstance(op, vy_ast.LShift):
             new_typ = left.typ
@@ -538,7 +541,8 @@ class Expr:
                 return self.build_in_comparator()
             else:
                 assert isinstance(right.typ, FlagT), right.typ
-                intersection = ["and", left, right]
+                # (operands reversed: evaluate `left` before `right`)
+                intersection = ["and", right, left]
                 if isinstance(self.expr.op, vy_ast.In):
                     return IRnode.from_list(["iszero", ["iszero", intersection]], typ=BoolT())
                 elif isinstance(self.expr.op, vy_ast.NotIn):
@@ -572,7 +576,8 @@ class Expr:
             else:
                 # use hash even for Bytes[N<=32], because there could be dirty
                 # bytes past the bytes data.
-                return IRnode.from_list([op, left_keccak, right_keccak], typ=BoolT())
+                # (eq/ne are commutative. operands reversed: evaluate `left` first)
+                return IRnode.from_list([op, right_keccak, left_keccak], typ=BoolT())
 
         # Compare other types.
         elif is_numeric_type(left.typ) and is_numeric_type(right.typ):
@@ -592,7 +597,22 @@ class Expr:
                 self.expr.op,
             )
 
-        return IRnode.from_list([op, left, right], typ=BoolT())
+        # IR arguments are evaluated last-to-first. to evaluate `left` (and
+        # its side effects) before `right`, emit the mirrored comparison
+        # with the operands swapped: `left < right` is `right > left`.
+        mirrored = {
+            "slt": "sgt",
+            "sgt": "slt",
+            "sle": "sge",
+            "sge": "sle",
+            "lt": "gt",
+            "gt": "lt",
+            "le": "ge",
+            "ge": "le",
+            "eq": "eq",
+            "ne": "ne",
+        }
+        return IRnode.from_list([mirrored[op], right, left], typ=BoolT())
 
     def parse_BoolOp(self):
         values = []
